@@ -42,7 +42,11 @@ theorem popRaw_length {size : Int} {bs m r : Bytes} (h : popRaw size bs = .ok (m
   · cases h
   · split at h
     · cases h
-    · exact readN_length h
+    · split at h
+      · rename_i h0
+        cases h
+        simp [h0]
+      · exact readN_length h
 
 theorem popMessage_length {bs m r : Bytes} (h : popMessage bs = .ok (m, r)) : m.length < 2 ^ 24 := by
   unfold popMessage at h
